@@ -25,6 +25,10 @@ def main(repo):
         return t
     T = new_table("ptv-nested")
     T2 = new_table("ptv-nested-2")
+    # a third one, initialised and then initialised again with reload=True: still a freshly initialised table
+    T3 = new_table("ptv-nested-3")
+    for m in (mass, density, nsf, xsf, covalent_radius, crystal_structure, magnetic_ff, activation):
+        m.init(T3, reload=True)
     attrs = ["neutron", "xray", "crystal_structure", "magnetic_ff", "neutron_activation", "covalent_radius",
              "covalent_radius_uncertainty", "K_alpha", "K_beta1", "nuclear_spin"]
 
@@ -79,7 +83,8 @@ def main(repo):
     # a freshly initialised private table - the first one and the second one - serves the public values
     from ptv.state_hist import _dig
     differs = []
-    for name, t in (("first private table", T), ("second private table", T2)):
+    for name, t in (("first private table", T), ("second private table", T2),
+                    ("private table re-initialised with reload=True", T3)):
         for el in pt.elements:
             pairs = [(el, t[el.number])] + [(el[i], t[el.number][i]) for i in el.isotopes if i in t[el.number].isotopes]
             for x, y in pairs:
